@@ -175,6 +175,37 @@ def run(ctx):
                             ctx.ob("R3", "GrafeoDB::%s#%s.%s" % (name, v, fn_), ("param:%d" % pnames[fn_]) in tg,
                                    what="field `%s` of the logged WalRecord::%s is not fed from the parameter `%s` of GrafeoDB::%s"
                                         % (fn_, v, fn_, name), where=g.loc(ln))
+    # a record is logged whenever the store was changed: the construction of a data record in a GrafeoDB method hangs only on
+    # the WAL being configured, on loop / `?` plumbing and on the outcome of the store call it describes - never on another
+    # test (a de-duplication of keys, a value test ...), or the log misses a change the store has applied
+    nlog = 0
+    store_mut_names = set(store_mut.values())
+    for g in sorted(P.fns.values(), key=lambda g: g.id):
+        root = P.fns.get(g.parent) if g.kind == "closure" and g.parent else g
+        if root is None or not root.id.startswith("grafeo_engine::database::GrafeoDB::") or root.id.endswith(("::apply_wal_records", "::close", "::wal_checkpoint")):
+            continue
+        gx = None
+        for bi, b in enumerate(g.blocks):
+            if b["cl"]:
+                continue
+            for pl, rv, ln in b["s"]:
+                if not (rv[0] == "agg" and rv[1] == "adt" and rv[2].endswith("wal::record::WalRecord") and rv[3] in data_variants):
+                    continue
+                gx = gx or FlowCx(P, g)
+                nlog += 1
+                extra = []
+                for x in gx.facts_at(bi):
+                    if x[0] == "variant":
+                        continue
+                    if x[0] == "call" and ("LpgStore::" in str(x[1]) or str(x[1]).split("::")[-1] in store_mut_names):
+                        continue
+                    if x[0] == "bool" and "cell:GrafeoDB.is_open" in str(x):
+                        continue
+                    extra.append((x[0], str(x[1]).split("::")[-1], str(x[2])))
+                ctx.ob("R3", "GrafeoDB::%s#%s#logged-unconditionally" % (root.id.split("::")[-1], rv[3]), not extra,
+                       what="GrafeoDB::%s builds the WalRecord::%s only when %s holds: a change the store has applied is not logged and is "
+                            "gone (or different) after reopen" % (root.id.split("::")[-1], rv[3], extra[:2]), where=g.loc(ln))
+    ctx.floor("R3", nlog, 15, "data records built in GrafeoDB methods")
     ctx.floor("R1", nmut, 11, "public GrafeoDB methods mutating their own store")
 
     # ---- R2 session coverage
